@@ -70,7 +70,7 @@ theorem data_forwarded (cfg : Cfg) (st : St) (d : Bytes) (i : Nat) (s : Http.S) 
     (hcur : st.cur = some i) (hobj : st.objs[i]? = some (.http s)) (hclosed : s.closed = false)
     (hl : H11M.recvData st.lib = some lib') :
     onLibEvBody cfg st [] (.data d) = some ({ st with lib := lib' }.setObj i (.http s), [.putHttp i (.request d true)]) := by
-  obtain ⟨lib, objs, cur, a4, a5, a6, a7, a8, a9, a10, a11⟩ := st
+  obtain ⟨lib, objs, cur, a4, a5, a6, a7, a8, a9, a10, a11, a12⟩ := st
   simp only at hcur hobj hl
   subst hcur
   simp [onLibEvBody, hl, St.stream, hobj, Http.handle, hclosed, St.setObj]
@@ -79,8 +79,8 @@ theorem data_forwarded (cfg : Cfg) (st : St) (d : Bytes) (i : Nat) (s : Http.S) 
 theorem eom_forwarded (cfg : Cfg) (st : St) (i : Nat) (s : Http.S) (lib' : H11M.St)
     (hcur : st.cur = some i) (hobj : st.objs[i]? = some (.http s)) (hclosed : s.closed = false)
     (hl : H11M.recvEom st.lib = some lib') :
-    onLibEvBody cfg st [] .eom = some ({ st with lib := lib' }.setObj i (.http s), [.putHttp i (.request [] false)]) := by
-  obtain ⟨lib, objs, cur, a4, a5, a6, a7, a8, a9, a10, a11⟩ := st
+    onLibEvBody cfg st [] .eom = some ({ st with lib := lib', requestComplete := true }.setObj i (.http s), [.putHttp i (.request [] false)]) := by
+  obtain ⟨lib, objs, cur, a4, a5, a6, a7, a8, a9, a10, a11, a12⟩ := st
   simp only at hcur hobj hl
   subst hcur
   simp [onLibEvBody, hl, St.stream, hobj, Http.handle, hclosed, St.setObj]
